@@ -86,6 +86,13 @@ def check(w):
     # ---- 3. end to end sizes with the generator's block-size rule
     big = big_edit_cases(tier, seed)
     bobs, brej, bsumm = p_delta.run_and_validate(w, big, "big", v, counts)
+    # ... and again (other seeds) inside multi-file sender sessions: state that survives from
+    # file to file in the sender must not cost matches
+    big2 = [c for c in big_edit_cases(tier, seed + 1000) if c["gen"]["size"] >= 70_000]
+    rnd.shuffle(big2)
+    sobs, srej, ssumm = p_delta.run_and_validate(w, big2, "bigsess", v, counts, session=3, first_id=100000)
+    bobs, brej = bobs + sobs, set(brej) | set(srej)
+    big = big + big2
     # ---- 4. negative controls: a stream that spends more literal data than allowed must be rejected
     good = [o for o in obs + bobs if o["id"] not in (rej if o in obs else brej) and o["lit"] > 0 and o["bounded"]]
     if len(good) < 10:
@@ -111,12 +118,12 @@ def check(w):
         "samples": samples, "exhaustive": True,
         "design_constants": {"MaxN": N, "MaxBlk": B, "MaxEdits": E, "MaxDel": D, "MaxIns": I},
         "replayed_scenarios": {"tlc_edit_scripts": len(base), "replayed_incl_inflated": len(scen), "scales": [1] + [k for k, _ in scales],
-                               "end_to_end_sizes": len(big), "max_file_bytes": max(o["tlen"] for o in bobs)},
+                               "end_to_end_sizes": len(big), "of_which_in_multi_file_sessions": len(big2), "max_file_bytes": max(o["tlen"] for o in bobs)},
         "action_coverage": cov,
         "evaluations": len(scen) + len(big), "distinct_nontrivial": nontrivial,
         "rule": "a case is one edited file answered by the real sender; non-trivial = at least one edit and at least one block reference in the answer",
         "negative_controls": {"over_budget_traces": len(bad), "rejected": len(nrej)},
-        "worker_crashes": summ["crashed"] + bsumm["crashed"],
+        "worker_crashes": summ["crashed"] + bsumm["crashed"] + ssumm["crashed"],
     }
     v.assumptions = ["high-entropy data has no accidental block matches (random bytes, distinct symbols)",
                      "literal bound = inserted + slack + 2*(block-1) per edit (DeltaOps!LiteralBoundOf), checked by TLC on the greedy model",
